@@ -195,9 +195,10 @@ func vPool(nodeSubnets []string, gateway, subnet string, vlan uint16, ranges ...
 	}
 	p.Mask = sn.Mask
 	p.Vlan = vlan
-	if VPoolVlanOverride != nil {
-		p.Vlan = *VPoolVlanOverride
+	if len(VPoolVlanOverride) > 0 {
+		p.Vlan = VPoolVlanOverride[vPoolSeq%len(VPoolVlanOverride)]
 	}
+	vPoolSeq++
 	for _, r := range ranges {
 		ipr := nets.ParseIPRange(r)
 		if ipr == nil {
@@ -213,12 +214,15 @@ func vPool(nodeSubnets []string, gateway, subnet string, vlan uint16, ranges ...
 
 const VNumTopologies = 4
 
-// VPoolVlanOverride, if set, replaces the VLAN id of every pool built by VTopology (lets a harness make it symbolic).
-var VPoolVlanOverride *uint16
+// VPoolVlanOverride, if set, replaces the VLAN ids of the pools built by VTopology, pool i getting entry i modulo the
+// length (lets a harness make them symbolic and different per pool).
+var VPoolVlanOverride []uint16
+var vPoolSeq int
 
 // VTopology returns fresh pool structs (ConfigurePool writes into them), the configured IPs in
 // ascending order and the node subnets that occur.
 func VTopology(t int) (pools []*FloatingIPPool, ips []string, nodeSubnets []string) {
+	vPoolSeq = 0
 	switch t {
 	case 0: // T1: one pool, one node subnet, one range of three addresses
 		return []*FloatingIPPool{vPool([]string{"10.0.1.0/24"}, "10.1.0.1", "10.1.0.0/24", 2, "10.1.0.10~10.1.0.12")},
